@@ -640,14 +640,35 @@ class Model(EconomicObject):
         # Build the FinalEquationBlock
         self.FinalEquationBlock = EquationBlock()
         for row in out:
-            if 'EXOGENOUS' in row[1]:
-                eq = Equation(row[0], desc=row[2], rhs=row[1].replace('EXOGENOUS', ''))
+            if self._IsExogenousDefinition(row[1]):
+                eq = Equation(row[0], desc=row[2], rhs=self._StripExogenousMarker(row[1]))
             else:
                 eq = Equation(row[0], desc=row[2], rhs=row[1])
             self.FinalEquationBlock.AddEquation(eq)
         out = self._FinalEquationFormatting(out)
         self.FinalEquations = out
         return out
+
+    @staticmethod
+    def _IsExogenousDefinition(rhs):
+        """
+        Is the right hand side an exogenous definition: the marker EXOGENOUS (put there by _ProcessExogenous)
+        in front of the values? (A variable whose name merely contains that word - EXOGENOUS_G - does
+        not make an equation exogenous.)
+        :param rhs: str
+        :return: bool
+        """
+        rhs = rhs.strip()
+        return rhs.startswith('EXOGENOUS') and not (rhs[9:10].isalnum() or rhs[9:10] == '_')
+
+    @staticmethod
+    def _StripExogenousMarker(rhs):
+        """
+        Remove the marker in front of an exogenous definition.
+        :param rhs: str
+        :return: str
+        """
+        return rhs.strip()[9:]
 
     def _FinalEquationFormatting(self, out):
         """
@@ -660,8 +681,8 @@ class Model(EconomicObject):
         endo = []
         exo = []
         for row in out:
-            if 'EXOGENOUS' in row[1]:
-                new_eqn = row[1].replace('EXOGENOUS', '')
+            if self._IsExogenousDefinition(row[1]):
+                new_eqn = self._StripExogenousMarker(row[1])
                 exo.append((row[0], new_eqn, row[2]))
             else:
                 endo.append(row)
